@@ -1,6 +1,7 @@
 package main
 
 import (
+	"runtime/debug"
 	"bufio"
 	"encoding/json"
 	"flag"
@@ -76,6 +77,8 @@ func (r *Runner) Oracle(op *Sexp, msg string) {
 func (r *Runner) Full() bool { return r.maxOps > 0 && r.n >= r.maxOps }
 
 func main() {
+	// unbounded recursion in the code under test becomes a quick fatal error instead of a gigabyte of stack
+	debug.SetMaxStack(128 << 20)
 	if len(os.Args) < 2 {
 		fmt.Fprintln(os.Stderr, "usage: harness run|replay ...")
 		os.Exit(2)
@@ -117,8 +120,9 @@ func main() {
 			if err != nil {
 				fmt.Fprintln(w, "bad-op")
 			} else {
-				fmt.Fprintln(w, execOp(s))
-				for _, o := range replayOracles(s) {
+				res := execOp(s)
+				fmt.Fprintln(w, res)
+				for _, o := range oracleFor(s, res) {
 					fmt.Fprintln(os.Stderr, "ORACLE", o)
 				}
 			}
@@ -161,6 +165,9 @@ func runProp(prop, tier string, seed uint64, dir string) {
 		"evaluations": r.n, "distinct": len(r.distinct), "distinct_nontrivial": len(r.nontrivial),
 		"histogram": r.hist, "outcome_classes": r.classes, "samples": r.samples, "rule": rule,
 		"oracle_failures": r.oracleFails, "gen_wall_s": time.Since(start).Seconds(),
+	}
+	if maxAllocPct > 0 {
+		r.hist["alloc.max_percent_of_bound"] = int(maxAllocPct)
 	}
 	b, _ := json.MarshalIndent(stats, "", " ")
 	os.WriteFile(dir+"/stats.json", b, 0o644)
